@@ -101,6 +101,10 @@ def effect_stmts(e):
         return [["mstore", 0x80, ["sload", ["c", e[1]]]], ["sstore", ["c", e[1]], ["sload", ["c", e[2]]]], ["sstore", ["c", e[2]], ["mload", 0x80]]]
     if k == "setsender":
         return [["sstore", ["c", e[1]], ["env", "CALLER"]]]
+    if k == "split":
+        # one call, two successful outcomes over the same stored symbol: s_j = arg; s_j2 = (arg < c) ? 1 : 2
+        return [["sstore", ["c", e[1]], e2e.arg(0)],
+                ["if", ["op2", "LT", e2e.arg(0), ["c", e[3]]], [["sstore", ["c", e[2]], ["c", 1]]], [["sstore", ["c", e[2]], ["c", 2]]]]]
     raise ValueError(e)
 
 
@@ -200,7 +204,10 @@ def build(case, order=0):
     if case.get("bump"):
         fns.append({"sig": "bump()", "body": [["sstore", ["c", 5], ["op2", "ADD", ["sload", ["c", 5]], ["c", 1]]], ["stop"]]})
     for i, inv in enumerate(case["invariants"]):
-        fns.append({"sig": f"invariant_i{i}()", "body": inv_body(inv, case)})
+        f_ = {"sig": f"invariant_i{i}()", "body": inv_body(inv, case)}
+        if str(i) in (case.get("inv_devdoc") or {}):
+            f_["devdoc"] = case["inv_devdoc"][str(i)]  # per-invariant @custom:halmos annotation (used by C20)
+        fns.append(f_)
     f = case["filters"]
     if f is not None:
         view = {"mutability": "view"}
@@ -290,6 +297,8 @@ def consts_of(case):
             for e in f["effects"]:
                 if e[0] in ("set", "add"):
                     cs.add(e[2])
+                elif e[0] == "split":
+                    cs.add(e[3])
     for inv in case["invariants"]:
         cs.add(inv["c"])
     pm = lambda s: sorted({max(0, c + d) for c in s for d in (-1, 0, 1)})  # noqa: E731
@@ -299,7 +308,7 @@ def consts_of(case):
 def uses(f, kind):
     gs = f["guards"] + ([f["assert"]] if f.get("assert") else [])
     if kind == "arg":
-        return any(g[0] == "arg" for g in gs) or any(e[0] == "setarg" for e in f["effects"])
+        return any(g[0] == "arg" for g in gs) or any(e[0] in ("setarg", "split") for e in f["effects"])
     if kind == "sender":
         return any(g[0] == "sender" for g in gs) or any(e[0] == "setsender" for e in f["effects"])
     return any(g[0] == kind for g in gs)
@@ -645,12 +654,13 @@ def effect_st(nslots):
         st.builds(lambda i, j: ["copy", i, j], s, s),
         st.builds(lambda i, j: ["swap", i, j], s, s),
         st.builds(lambda i: ["setsender", i], s),
+        st.builds(lambda j, c: ["split", j, (j + 1) % nslots, c], s, st.sampled_from([1, 2, 3, 5, 100])),
     )
 
 
 def fn_st(nslots):
     def mk(arg, payable, guards, effects, has_assert, ag, noop):
-        effects = [e for e in effects if not (e[0] == "setarg" and not arg)]
+        effects = [e for e in effects if not (e[0] in ("setarg", "split") and not arg)]
         guards = [g for g in guards if not (g[0] == "value" and not payable)]
         # (a function without any effect is a legitimate target: it only lets time pass)
         f = {"arg": arg, "payable": payable, "guards": guards, "effects": [] if noop else (effects or [["add", 0, 1]])}
@@ -752,6 +762,22 @@ def permute_st():
     return st.builds(mk, st.sampled_from([(0, 1), (1, 0), (0, 2), (2, 1)]), st.sampled_from([(1, 2), (2, 1), (3, 5), (1, 100)]), st.booleans(), st.booleans(), st.integers(0, 50), st.sampled_from(["order", "nomerge", None]), st.integers(1, 1 << 20))
 
 
+def split_st():
+    """one target call with two successful outcomes over the same stored symbol (s_j = arg; s_k = 1 if
+    arg < c else 2): the frontier holds two states whose constraints on that symbol exclude each other;
+    each invariant is broken from exactly one of them"""
+    def mk(c, which, extra, depth, meta, seed):
+        fns = [{"arg": True, "payable": False, "guards": [], "effects": [["split", 0, 1, c]]}]
+        if extra:
+            fns.append({"arg": False, "payable": False, "guards": [["slot", 1, "eq", which]], "effects": [["set", 2, 1]]})
+        invs = [{"contract": "A", "slot": 1, "cmp": "ne", "c": 1}, {"contract": "A", "slot": 1, "cmp": "ne", "c": 2}]
+        if extra:
+            invs = [{"contract": "A", "slot": 2, "cmp": "eq", "c": 0}, invs[which - 1]]
+        return {"slots": 3, "targets": [{"name": "A", "fns": fns}], "bump": False, "filters": None, "invariants": invs, "depth": depth, "meta": meta, "seed": seed}
+
+    return st.builds(mk, st.sampled_from([1, 3, 5, 100]), st.sampled_from([1, 2]), st.booleans(), st.sampled_from([1, 2, 2]), st.sampled_from([None, "order", "nomerge"]), st.integers(1, 1 << 20))
+
+
 def balance_st():
     """targets that read their own balance after payable calls (halmos does not move the value of
     top-level invariant calls: known finding, every bucket of this family is prefixed reads-balance)"""
@@ -767,7 +793,7 @@ def balance_st():
 
 def shards(tier):
     n = 40 if tier == "quick" else 600
-    return [{"mode": "hyp", "n": n} for _ in range(14)] + [{"mode": "confluent", "n": n}, {"mode": "permute", "n": n // 2}, {"mode": "balance", "n": 6}]
+    return [{"mode": "hyp", "n": n} for _ in range(14)] + [{"mode": "confluent", "n": n}, {"mode": "permute", "n": n // 2}, {"mode": "balance", "n": 6}, {"mode": "split", "n": n // 2}]
 
 
 def run_shard(spec, seed, tier):
@@ -777,7 +803,7 @@ def run_shard(spec, seed, tier):
         for b, d in run_case(case, acc):
             acc.fail(b, case, d)
 
-    run_cases({"confluent": confluent_st, "permute": permute_st, "hyp": case_st, "balance": balance_st}[spec["mode"]](), body, spec["n"], seed)
+    run_cases({"confluent": confluent_st, "permute": permute_st, "hyp": case_st, "balance": balance_st, "split": split_st}[spec["mode"]](), body, spec["n"], seed)
     return acc
 
 
